@@ -116,6 +116,32 @@ def split_guard(db, ctx):
     ctx.ob("same-mode", same_mode, "num_splits and split receive the same `mode`: %s" % same_mode, fn=f)
 
 
+def ev_mode(m):
+    def pat_mode(p):
+        pth = ((p or {}).get("e") or {}).get("path") or (p or {}).get("path") or ""
+        return pth.split("::")[-1] if "Mode::" in pth else ("_" if (p or {}).get("k") == "Wild" else None)
+
+    def ev(atom):
+        if isinstance(atom, tuple):
+            pm = pat_mode(atom[2])
+            if pm == "_":
+                return None
+            return (pm == m) if pm else None
+        a = peel(atom)
+        if a.get("k") == "LetExpr":
+            pm = pat_mode(a.get("pat"))
+            return (pm == m) if pm and pm != "_" else None
+        c = cmp_atom(a)
+        if c and c[0] in ("Eq", "Ne"):
+            for x in (c[1], c[2]):
+                px = peel(x)
+                if px.get("k") == "Path" and "Mode::" in (px.get("path") or ""):
+                    eq = px["path"].split("::")[-1] == m
+                    return eq if c[0] == "Eq" else (not eq)
+        return None
+    return ev
+
+
 @rule("C09.pairing", "Mode::A<->SPLIT_A<->a_unit_split and Mode::B<->SPLIT_B<->b_unit_split agree across set_mode, set_subset, num_splits, split")
 def pairing(db, ctx):
     want_flag = {"A": {"SPLIT_A"}, "B": {"SPLIT_B"}}
@@ -138,30 +164,6 @@ def pairing(db, ctx):
     from ..flow import holds_at
     from ..inline import nf as _nf
 
-    def ev_mode(m):
-        def pat_mode(p):
-            pth = ((p or {}).get("e") or {}).get("path") or (p or {}).get("path") or ""
-            return pth.split("::")[-1] if "Mode::" in pth else ("_" if (p or {}).get("k") == "Wild" else None)
-
-        def ev(atom):
-            if isinstance(atom, tuple):
-                pm = pat_mode(atom[2])
-                if pm == "_":
-                    return None
-                return (pm == m) if pm else None
-            a = peel(atom)
-            if a.get("k") == "LetExpr":
-                pm = pat_mode(a.get("pat"))
-                return (pm == m) if pm and pm != "_" else None
-            c = cmp_atom(a)
-            if c and c[0] in ("Eq", "Ne"):
-                for x in (c[1], c[2]):
-                    px = peel(x)
-                    if px.get("k") == "Path" and "Mode::" in (px.get("path") or ""):
-                        eq = px["path"].split("::")[-1] == m
-                        return eq if c[0] == "Eq" else (not eq)
-            return None
-        return ev
     for nm in ("num_splits", "split"):
         f = db.view(db.one(nm, "ResultNode"))
         calls = [(c, ps) for c, ps in walk(f.hir) if c.get("k") == "MethodCall" and c.get("method") in ("a_unit_split", "b_unit_split")]
@@ -180,7 +182,9 @@ def offsets(db, ctx):
     init = None
     for n, _ in walk(sp.hir):
         if n.get("k") == "Struct" and (n.get("path") or "").endswith("NodeSplitIterator"):
-            init = {x["name"]: render(peel_casts(x["e"])) for x in n["fields"]}
+            from ..flow import select as _sel
+            from ..inline import nf as _nfi
+            init = {x["name"]: _nfi(_sel(db, sp, x["e"], lambda a: None)) for x in n["fields"] if "e" in x}
     # `subset` must be handed on unchanged: the units' head_word_length is parsed only if the fields up to it are requested
     want = {"byte_offset": "self.begin_bytes", "byte_end": "self.end_bytes", "char_offset": "self.begin()", "char_end": "self.end()", "subset": "subset"}
     ok = init is not None and all(init.get(k) == v for k, v in want.items()) and init.get("index") == "0"
